@@ -22,11 +22,22 @@ const D_TEXT: &str = "include \"e.td\"\nclass KD : KE;\n";
 const E_PATH: &str = "/ws/sub/e.td";
 const E_TEXT: &str = "class KE;\n";
 
-fn all_files(variants: &[usize; 3]) -> Vec<(String, String)> {
+/// A second `e.td`, next to a, b and c: it comes into existence and disappears again (operation `Near`).
+const E_NEAR_PATH: &str = "/ws/e.td";
+const E_NEAR_TEXT: &str = "class KE;\nclass KEnear;\n";
+
+fn all_files_with(variants: &[usize; 3], e_near: bool) -> Vec<(String, String)> {
     let mut v: Vec<(String, String)> = (0..3).map(|f| (path(f), variant(f, variants[f]))).collect();
     v.push((path(3), D_TEXT.to_string()));
     v.push((E_PATH.to_string(), E_TEXT.to_string()));
+    if e_near {
+        v.push((E_NEAR_PATH.to_string(), E_NEAR_TEXT.to_string()));
+    }
     v
+}
+
+fn all_files(variants: &[usize; 3]) -> Vec<(String, String)> {
+    all_files_with(variants, false)
 }
 
 pub const VARIANTS: usize = 6;
@@ -58,6 +69,9 @@ pub enum Op {
     /// a file that is not the root changes on disk only; the host learns of it when the
     /// root is re-selected (what the server does on the next notification)
     Disk(usize, usize),
+    /// the file `e.td` next to a, b and c is created (true) or deleted (false) on disk; the host learns of it
+    /// when the root is re-selected
+    Near(bool),
 }
 
 pub fn ops() -> Vec<Op> {
@@ -89,6 +103,8 @@ pub fn ops() -> Vec<Op> {
     for f in 0..3 {
         v.push(Op::Disk(f, 5));
     }
+    v.push(Op::Near(true));
+    v.push(Op::Near(false));
     v
 }
 
@@ -116,6 +132,8 @@ fn show(op: Op) -> String {
         Op::Edit(f, v) => format!("Edit({},v{v})", FILES[f]),
         Op::Root(f) => format!("Root({})", FILES[f]),
         Op::Disk(f, v) => format!("Disk({},v{v})", FILES[f]),
+        Op::Near(true) => "Create(e.td)".to_string(),
+        Op::Near(false) => "Delete(e.td)".to_string(),
     }
 }
 
@@ -135,6 +153,7 @@ pub fn run_history(h: &[usize], compare_every_step: bool) -> (Option<(String, St
     let mut live = Ws::new(&files0, &path(0));
     let mut states = vec![(root, variants)];
     let mut compares = 0;
+    let mut e_near = false;
     for (k, &i) in h.iter().enumerate() {
         match all[i] {
             Op::Edit(f, v) => {
@@ -156,11 +175,21 @@ pub fn run_history(h: &[usize], compare_every_step: bool) -> (Option<(String, St
                 let r = live.root;
                 live.host.set_root_file(&mut live.fs, r);
             }
+            Op::Near(present) => {
+                e_near = present;
+                if present {
+                    live.fs.set(E_NEAR_PATH, E_NEAR_TEXT);
+                } else {
+                    live.fs.remove(E_NEAR_PATH);
+                }
+                let r = live.root;
+                live.host.set_root_file(&mut live.fs, r);
+            }
         }
         states.push((root, variants));
         if compare_every_step || k + 1 == h.len() {
             compares += 1;
-            let files = all_files(&variants);
+            let files = all_files_with(&variants, e_near);
             let fresh = Ws::new(&files, &path(root));
             let t_live = transcript(&live);
             let t_fresh = transcript(&fresh);
@@ -207,7 +236,7 @@ impl Engine for C07 {
 
     fn rule(&self, tier: Tier) -> String {
         format!(
-            "every history of <= {} operations over 40 operations (Edit(file, variant) for 3 files x 6 text variants keeping the root; Root(file) for the three files and for a fourth in a subdirectory; Disk(file, variant) = a non-root file changes on disk and the root is re-selected) \
+            "every history of <= {} operations over 42 operations (Edit(file, variant) for 3 files x 6 text variants keeping the root; Root(file) for the three files and for a fourth in a subdirectory; Disk(file, variant) = a non-root file changes on disk and the root is re-selected; Create / Delete of a file `e.td` that variant 5 includes: it is missing until it is created) \
              and every history of exactly {} operations over 12 base operations (Edit to plain / include-next / include-previous, Root), starting from root a, all files plain; \
              and every history of <= {} operations over a two-file alphabet of 8 (a with / without its include of b, a and b as roots, b plain / faulty through the host and on disk only) from that start and, <= {} operations, from the state after Root(b) ; Root(a) ; Edit(a, includes b) - a start with a past, in which the host has been handed b's text both by the client and by the include walk; \
              variants: plain (with an anonymous def that has a field) / includes the next file (a->b->c->a, so cycles arise) / same with the include statement moved down two lines / a faulty def / includes the PREVIOUS file at the same byte range as variant 1 (only the path differs) / includes a file that exists only in the subdirectory of the fourth root (it resolves from there, never from here); \
